@@ -63,7 +63,9 @@ def gen_joint(rng, length, name):
             elif kind == "searchReq":
                 x = rng.random()
                 if x < 0.45:
-                    call = {"k": "entry", "name": C.tx("cn=x"), "attrs": [{"name": C.tx("cn"), "vals": ["78"]}], **base}
+                    vals = [rng.choice(["78", "62", "6161", "", "7a7a", "00", "ff"]) for _ in range(rng.choice([0, 1, 2, 3, 4]))]   # any order, repeats allowed
+                    attrs = [{"name": C.tx(rng.choice(["cn", "objectClass", ""])), "vals": vals}] + ([{"name": C.tx("sn"), "vals": ["74", "61"]}] if rng.random() < 0.3 else [])
+                    call = {"k": "entry", "name": C.tx("cn=x"), "attrs": attrs, **base}
                     final = False
                 elif x < 0.6:
                     call = {"k": "reference", "uris": [C.tx("ldap://a")], **base}
